@@ -273,7 +273,7 @@ def check_C08(ctx):
         replay = rnd.sample(replay, min(len(replay), 6000))
         explore = rnd.sample(explore, min(len(explore), 120))
     p = ctx.write_scn(replay + explore)
-    run = ctx.drive("select", scn=p, n=4000 if ctx.thorough else 600)
+    run = ctx.drive("select", scn=p, n=6000 if ctx.thorough else 900)
 
     def corrupt(recs, rnd):
         idx = [i for i, r in enumerate(recs) if r.get("ev") == "Reset" and r["utxo"]]
@@ -733,6 +733,16 @@ def byron_recrc_addresses():
                     payload = _cbor_head(4, arity) + b"".join(items)
                     crc = zlib.crc32(payload) & 0xffffffff
                     out.append(list(b"\x82\xd8\x18" + bstr(payload) + _cbor_head(0, crc)))
+    # well-formed ordinary addresses whose checksum is a SMALL number (encodes in fewer bytes than the usual 5): found by search
+    for bound, want in ((1 << 16, 3), (1 << 8, 1)):
+        found, k = 0, 0
+        while found < want and k < 6_000_000:
+            payload = b"\x83" + bstr(k.to_bytes(28, "big")) + b"\xa0\x00"
+            crc = zlib.crc32(payload) & 0xffffffff
+            if crc < bound:
+                out.append(list(b"\x82\xd8\x18" + bstr(payload) + _cbor_head(0, crc)))
+                found += 1
+            k += 1
     return out
 
 HANG_S = 25
@@ -881,6 +891,18 @@ def check_C02(ctx):
     for a in byron_recrc_addresses():
         scn.append({"kind": "raw", "type": "address", "bytes": a})
         scn.append({"kind": "raw", "type": "output", "bytes": list(b"\x82" + _cbor_head(2, len(a)) + bytes(a) + b"\x01")})
+    # deep (but < 256) nesting: each level is decoded once - a decoder whose cost doubles per level does not come back
+    key = b"\x82\x00\x58\x1c" + bytes([7]) * 28
+    for d in (8, 24, 48, 100, 200):
+        for kind in (1, 2):
+            scn.append({"kind": "raw", "type": "native_script", "bytes": list((b"\x82" + bytes([kind]) + b"\x81") * d + key)})
+        scn.append({"kind": "raw", "type": "native_script", "bytes": list((b"\x83\x03\x01\x81") * d + key)})
+        scn.append({"kind": "raw", "type": "plutus_data", "bytes": list(b"\x81" * d + b"\x01")})
+        scn.append({"kind": "raw", "type": "plutus_data", "bytes": list(b"\x9f" * d + b"\x01" + b"\xff" * d)})
+        scn.append({"kind": "raw", "type": "plutus_data", "bytes": list(b"\xd8\x79\x81" * d + b"\x01")})
+        scn.append({"kind": "raw", "type": "plutus_data", "bytes": list(b"\xa1\x01" * d + b"\x01")})
+        scn.append({"kind": "raw", "type": "metadatum", "bytes": list(b"\x81" * d + b"\x01")})
+        scn.append({"kind": "raw", "type": "metadatum", "bytes": list(b"\xa1\x01" * d + b"\x01")})
     p = ctx.write_scn(scn)
     run = _drive_parse(ctx, p, n_text=12 if ctx.thorough else 3, short=True)
 
